@@ -358,7 +358,7 @@ def _model_tests() -> list[str]:
 
 
 def selfcheck() -> int:
-    errs = _cfg_tests() + _model_tests()
+    errs = _cfg_tests() + _model_tests() + _cycle_test()
     nfacts = sum(len(c[2]) for c in CASES)
     if errs:
         for e in errs:
@@ -366,3 +366,27 @@ def selfcheck() -> int:
         return 2
     print(f"sfverif engine self-check: {len(CASES)} CFG functions / {nfacts} path facts, model + fragment tests OK")
     return 0
+
+
+def _cycle_test() -> list[str]:
+    src = textwrap.dedent(
+        """
+        def f(x):
+            while True:
+                a()
+                if x:
+                    continue
+                b()
+        """
+    )
+    tree = ast.parse(src)
+    set_parents(tree)
+    g = build_cfg(tree.body[0])
+    a = _find(g, "a()")[0]
+    b = _find(g, "b()")[0]
+    errs = []
+    if g.path(a, [a], avoid=[b]) is None:
+        errs.append("cycle a->a avoiding b not found")
+    if g.path(b, [b], avoid=[a]) is not None:
+        errs.append("spurious cycle b->b avoiding a")
+    return errs
